@@ -399,4 +399,22 @@ theorem cert_sqsetdist {C : Set E} {P : E → E} (hP : ∀ x, IsProjAt C x (P x)
   rw [inner_sub_right] at hexp
   nlinarith [sq_nonneg ‖(z - p) - (P z - y)‖]
 
+/-- **generic `Loss` with identity operator** (`Loss.prox`): if `p` is certified for `f` at `v - y` with parameter
+    `s·lam`, then `p + y` is certified for `x ↦ s·f(x - y)` at `v` with parameter `lam` (`s > 0` the scale). -/
+theorem cert_translate {D : Set E} {f : E → ℝ} {lam s : ℝ} {v y p : E} (hs : 0 < s)
+    (h : Cert D f (s * lam) (v - y) p) :
+    Cert {x : E | x - y ∈ D} (fun x => s * f (x - y)) lam v (p + y) := by
+  refine ⟨by simpa using h.1, fun z hz => ?_⟩
+  have hz' := h.2 (z - y) hz
+  rw [real_inner_smul_left] at hz' ⊢
+  have e1 : v - (p + y) = v - y - p := by abel
+  have e2 : z - (p + y) = z - y - p := by abel
+  have e3 : p + y - y = p := by abel
+  beta_reduce
+  rw [e1, e2, e3]
+  have hk : 1 / lam * ⟪v - y - p, z - y - p⟫ = s * (1 / (s * lam) * ⟪v - y - p, z - y - p⟫) := by
+    field_simp
+  rw [hk, ← mul_add]
+  exact mul_le_mul_of_nonneg_left hz' hs.le
+
 end Scico.ProxSpec
